@@ -34,6 +34,7 @@
 #include "cppParameterList.h"
 #include "cppReferenceType.h"
 #include "lineStream.h"
+#include "verif_trace.h"
 
 #include <algorithm>
 #include <map>
@@ -4919,6 +4920,26 @@ int get_type_sort(CPPType *type) {
   return answer;
 }
 
+#ifdef INTERROGATE_VERIF_TRACE
+// JSON array describing the given remaps in order (verification trace hooks
+// only): function signature and the sort key that RemapCompareLess looks at.
+static std::string verif_remaps_json(const std::vector<FunctionRemap *> &remaps) {
+  std::ostringstream out;
+  out << "[";
+  for (size_t i = 0; i < remaps.size(); ++i) {
+    const FunctionRemap *remap = remaps[i];
+    out << (i > 0 ? "," : "") << "{\"s\":" << VERIF_Q(remap->_function_signature)
+        << ",\"k\":[" << (remap->_const_method ? 1 : 0) << "," << remap->_parameters.size();
+    for (const FunctionRemap::Parameter &param : remap->_parameters) {
+      out << "," << get_type_sort(param._remap->get_orig_type());
+    }
+    out << "]}";
+  }
+  out << "]";
+  return out.str();
+}
+#endif  // INTERROGATE_VERIF_TRACE
+
 // The Core sort function for remap calling orders..
 bool RemapCompareLess(FunctionRemap *in1, FunctionRemap *in2) {
   assert(in1 != nullptr);
@@ -5075,6 +5096,7 @@ write_function_forset(ostream &out,
     // them one at a time.
     std::vector<FunctionRemap *> remaps (remapsin.begin(), remapsin.end());
     std::sort(remaps.begin(), remaps.end(), RemapCompareLess);
+    VERIF_EVENT("{\"e\":\"Sort\",\"in\":" << verif_remaps_json(std::vector<FunctionRemap *>(remapsin.begin(), remapsin.end())) << ",\"out\":" << verif_remaps_json(remaps) << "}");
     std::vector<FunctionRemap *>::const_iterator sii;
 
     int num_coercion_possible = 0;
